@@ -174,6 +174,61 @@ class Empty:
     pass
 
 
+class AnnSlotsBase:
+    """annotated AND slotted: the annotations (of the whole MRO, in annotation order) define the fields"""
+    __slots__ = ("x", "y")
+    x: int
+    y: typing.Any
+
+    def __init__(self, x, y):
+        self.x, self.y = x, y
+
+
+class AnnSlotsSub(AnnSlotsBase):
+    __slots__ = ("z",)
+    z: typing.Any
+
+    def __init__(self, x, y, z):
+        super().__init__(x, y)
+        self.z = z
+
+
+class AnnSlotsReordered:
+    """slots declared in another order than the annotations"""
+    __slots__ = ("b", "_h", "a")
+    a: typing.Any
+    b: typing.Any
+
+    def __init__(self, a, b):
+        self.a, self.b, self._h = a, b, 0
+
+
+class AnnPlainBase:
+    p: typing.Any
+
+    def __init__(self, p):
+        self.p = p
+
+
+class AnnPlainSub(AnnPlainBase):
+    q: typing.Any
+
+    def __init__(self, p, q):
+        super().__init__(p)
+        self.q = q
+
+
+@dataclasses.dataclass
+class DCBase:
+    a: typing.Any
+
+
+@dataclasses.dataclass
+class DCSub(DCBase):
+    b: typing.Any = None
+    _h: int = 0
+
+
 class AnnClassVar:
     K: typing.ClassVar[int] = 7
     a: int
@@ -332,6 +387,12 @@ FACTORIES = {
     "VarsNoArgs": (VarsNoArgs, ["p", "q"]),
     "Empty": (Empty, []),
     "AnnClassVar": (lambda: AnnClassVar((1, 2), "ab"), ["a", "b"]),
+    "AnnSlotsBase": (lambda: AnnSlotsBase(1, (1, 2)), ["x", "y"]),
+    "AnnSlotsSub": (lambda: AnnSlotsSub(1, "ab", [3]), ["x", "y", "z"]),
+    "AnnSlotsSub-pairfirst": (lambda: AnnSlotsSub((1, 2), None, "xy"), ["x", "y", "z"]),
+    "AnnSlotsReordered": (lambda: AnnSlotsReordered("ab", (1, 2)), ["a", "b"]),
+    "AnnPlainSub": (lambda: AnnPlainSub((1, 2), "ab"), ["p", "q"]),
+    "DCSub": (lambda: DCSub("ab", (1, 2)), ["a", "b"]),
     "DCClassVar": (lambda: DCClassVar(), ["a", "b"]),
     "DCClassVar-args": (lambda: DCClassVar("ab", 5, 9, [1]), ["a", "b"]),
     "DCAll": (lambda: DCAll(a=(1, 2), b="xy"), ["a", "b"]),
